@@ -8,5 +8,7 @@ CONSTANTS
   Templates <- TwoTmpl
   MaxPush = 2
   MaxCases = 2
+  MaxComp = 3
+  MaxMerge = 6
 INVARIANT TypeOK
 ACTION_CONSTRAINT Emit
